@@ -594,7 +594,14 @@ func (d *Datastore) runDeviationUpdate(ctx context.Context, dm map[string]sdcpb.
 			log.Errorf("%s: failed to convert value to its YANG type: %v ", d.Name(), err)
 			continue
 		}
-		if !utils.EqualTypedValues(nfiv, v) {
+		// the running value needs the same normalization, otherwise equal values
+		// in different representations are reported as deviation
+		nv, err := utils.TypedValueToYANGType(v, scRsp.GetSchema())
+		if err != nil {
+			log.Errorf("%s: failed to convert value to its YANG type: %v ", d.Name(), err)
+			continue
+		}
+		if !utils.EqualTypedValues(nfiv, nv) {
 			log.Debugf("%s: intent %s has a NOT_APPLIED deviation: configured: %v -> expected %v",
 				d.Name(), intentsUpdates[0].Owner(), v, nfiv)
 			rsp := &sdcpb.WatchDeviationResponse{
